@@ -40,7 +40,7 @@ def cbmc_version():
 class Job:
     def __init__(self, name, engine, harness, entry, props, enforce=None, replace=(), defs=(),
                  loop_contracts=False, cbmc_args=(), timeout=600, mem_gb=6, tier="quick",
-                 unwindset=None, note="", expect_fail=(), nondet_static=False, gi_args=(), part=None, cc_args=(), portfolio=False):
+                 unwindset=None, note="", expect_fail=(), nondet_static=False, gi_args=(), part=None, cc_args=(), portfolio=False, witness_defs=()):
         self.name = name
         self.engine = engine
         self.harness = harness          # path relative to VERIF
@@ -60,6 +60,7 @@ class Job:
         self.gi_args = list(gi_args)
         self.cc_args = list(cc_args)
         self.portfolio = portfolio
+        self.witness_defs = list(witness_defs)
         self.part = part                # (i, n): this job checks the i-th of n shares of the obligations
 
     def workdir(self):
@@ -201,7 +202,16 @@ def build_job(job, log):
         gi = ["goto-instrument", "--dfcc", job.entry]
         if job.enforce:
             gi += ["--enforce-contract", job.enforce]
+        callees = None
+        if job.replace:
+            rc0, cg, err0, s0, to0 = run_cmd(["goto-instrument", "--call-graph", a], 120, 4)
+            if rc0 == 0 and cg:
+                callees = {m.group(1) for m in re.finditer(r"^\S+ -> (\S+)$", cg, re.M)}
         for r in job.replace:
+            if callees is not None and r not in callees:
+                # the (changed) code no longer calls this function at all: nothing to replace
+                log.append({"step": "note", "cmd": "callee %s does not occur in the goto binary; not replaced" % r, "rc": 0, "secs": 0, "stderr": ""})
+                continue
             gi += ["--replace-call-with-contract", r]
         if job.loop_contracts:
             gi += ["--apply-loop-contracts"]
@@ -412,9 +422,22 @@ def list_properties(binary, job):
 
 def add_traces(job, binary, cb, failed, res):
     """Second pass, only when something failed: ask CBMC for the counterexample of up to three failed obligations."""
+    wbin = None
+    if getattr(job, "witness_defs", None):
+        # rebuild the same harness with the witness-size restriction: a counterexample small enough to replay natively
+        import copy
+        wj = copy.copy(job)
+        wj.name = job.name + "/witness"
+        wj.defs = list(job.defs) + list(job.witness_defs)
+        try:
+            wbin = build_job(wj, [])
+        except RuntimeError:
+            wbin = None
     for o in failed:
         outp = os.path.join(job.workdir(), "trace.json")
         cmd = [c for c in cb if c != "--json-ui"] + ["--json-ui", "--trace", "--property", o["id"]]
+        if wbin:
+            cmd = [wbin if c == binary else c for c in cmd]
         rc, out, err, secs, to = run_cmd(cmd, min(job.timeout, 900), job.mem_gb, stdout_path=outp)
         if to:
             continue
